@@ -140,7 +140,11 @@ type LeaderRevision struct {
 }
 
 func (r *revisionSyncer) singleFlightGetRevisionFromLeader() (uint64, error) {
-	v, err, _ := r.flight.Do("get_revision", func() (interface{}, error) {
+	// fetched is set if this call itself asked the leader, i.e. it did not share the answer
+	// of a request which another call had started
+	fetched := false
+	fetch := func() (interface{}, error) {
+		fetched = true
 		// there is no guarantee about the schema of leader, so we just try one by one
 		for _, schema := range r.getRetrySchemas() {
 			r.schema = schema
@@ -162,7 +166,14 @@ func (r *revisionSyncer) singleFlightGetRevisionFromLeader() (uint64, error) {
 		err := status.Errorf(codes.Unavailable, "no suitable schema to leader")
 		klog.ErrorS(err, "can not get revision from leader", "leader", r.leaderElection.GetLeaderInfo())
 		return uint64(0), err
-	})
+	}
+	v, err, _ := r.flight.Do("get_revision", fetch)
+	if !fetched {
+		// the shared request was already under way when this read began, so its answer may be older than
+		// a write the leader had committed before the read began. A request started from here on is not:
+		// either this call makes it, or it shares one that started after the previous one had returned.
+		v, err, _ = r.flight.Do("get_revision", fetch)
+	}
 	return v.(uint64), err
 }
 
